@@ -71,7 +71,7 @@ SCHED_NOTE = ("Trusted base: Go toolchain; the hand-written controlled scheduler
 CHECKS.update({
  "C04": dict(engine="schedmc", cat="model_checking", ref="§2.2, §3 C04",
    technique="stateless exploration of every interleaving (preemption-bounded, thorough: unbounded with state-key pruning) of the real hash code under a controlled scheduler + exhaustive pairwise change-sensitivity over a file universe",
-   text="For every list of <=3 (thorough 4) entries over a path universe (duplicates, permutations, a directory) x NumCPU in {1,2,3}, Hash is executed under every schedule within the bound; the digest must be one value per multiset of (path, content) across all schedules, orders and CPU counts. All collections of <=3 (4) files from a universe built from the code's shortcuts (prefix/concatenation names, same basename, empty, 70KB differing in last byte) must have pairwise different digests.",
+   text="For every list of <=3 (thorough 4) entries over a path universe (duplicates, permutations, a directory) x NumCPU in {1,2,3}, Hash is executed under every schedule within the bound; the digest must be one value per multiset of (path, content) across all schedules, orders and CPU counts. All collections of <=3 (4) files from a universe built from the code's shortcuts (prefix/concatenation names, same basename, empty, 70KB differing in last byte, a symbolic link, two canonically equivalent Unicode names) must have pairwise different digests, also when listed with duplicates. Free-running: lists of 0-261 and 1023-8200 files, each with single-file content changes (incl. same size and mtime), reversal and repeated calls.",
    note=SCHED_NOTE),
  "C18": dict(engine="schedmc", cat="model_checking", ref="§2.2, §3 C18",
    technique="stateless exploration of every interleaving and every single injected open/read fault of the real hash code under a controlled scheduler with deadlock/leak/livelock/panic detection",
@@ -84,7 +84,7 @@ BIN_NOTE = ("Trusted base: Go toolchain; the small reference functions in the ha
 CHECKS.update({
  "C09": dict(engine="cfgmc-c09", cat="model_checking", ref="§2.4, §3 C09",
    technique="exhaustive enumeration of program shapes x failing-command placements x statuses x modes through the built binary, each followed by a second run",
-   text="Every (shape in {single, independent, chain, diamond leg}) x 1-3 commands per task x every single failing (task, position) x status in {1,2,127,255} and every pair of failing commands x mode in {plain, --quiet, --json, --force}: the invocation must exit non-zero and name a task that really failed; after switching the failure off, the next unforced run must not treat the failed task as up to date.",
+   text="Every (shape in {single, independent, chain, diamond leg, a task named clean / default / _gen, a chain of twelve}) x 1-3 commands per task x every single failing (task, position) x status in {1,2,127,255} (builtin exit, external process, death by signal; as or-list, subshell, brace group, if, negation, [[ ]]), every pair of failing commands, and failing runs in which everything before the failing task is up to date x mode in {plain, --quiet, --json, --force}: the invocation must exit non-zero and name a task that really failed; after switching the failure off, the next unforced run must not treat the failed task as up to date.",
    note=BIN_NOTE),
  "C12": dict(engine="cfgmc-c12", cat="model_checking", ref="§2.4, §3 C12",
    technique="exhaustive enumeration of output-declaration sets x project trees x clean-task presence through `spok --clean`, compared with a reference via whole-sandbox snapshots",
@@ -107,7 +107,7 @@ CHECKS.update({
 CHECKS.update({
  "C10": dict(engine="crashmc", cat="fault_enumeration", ref="§2.1, §3 C10",
    technique="exhaustive crash-point enumeration: strace log of every mutating syscall of a run = the device log; every prefix and every torn cache write is a crash state, continued with every edit x unforced run on the real code against the crash-updated reference model",
-   text="For every state of the force-free/failure-free closure of each program and every run from it (every topological-sort order) the run is executed under strace; every prefix of its mutating-syscall log (cache writes interleaved with task markers) and every torn version of each cache write (quick: token boundaries; thorough: every byte) is materialised as a crash state and continued with {no edit, each edit} x each unforced run. Each continuation must stop with an explicit cache error or be skip-sound against the model in which exactly the tasks whose last marker lies inside the prefix have completed.",
+   text="For every state of the force-free/failure-free closure of each program and every run from it (every topological-sort order; also the forced run of each single task) the run is executed under strace; every prefix of its mutating-syscall log (cache writes interleaved with task markers) and every torn version of each cache write (quick: token boundaries; thorough: every byte) is materialised as a crash state and continued with {no edit, each edit} x each unforced run. Each continuation must stop with an explicit cache error or be skip-sound against the model in which exactly the tasks whose last marker lies inside the prefix have completed.",
    note=HIST_NOTE + " Plus: strace's log is complete for the calls spok makes; SIGKILL loses no completed syscall; one kill per history."),
 })
 
